@@ -288,7 +288,9 @@ def check_point(eng, x, v, wseed, mode, h):
       # (truncation not yet in the h^2 regime, or rounding noise of a long multi-step primal) the entry-wise
       # tolerance is widened by twice that difference
       resid = np.abs(np.asarray(jt[j]) - np.asarray(rich[j])) - 2.0 * np.abs(np.asarray(fd1[j]) - np.asarray(fd2[j]))
-      err = float(np.max(np.maximum(resid, 0.0))) / (scale[j] + floor[j] / RTOL_FD) if np.size(resid) else 0.0
+      top = float(np.max(np.maximum(resid, 0.0))) if np.size(resid) else 0.0
+      den = scale[j] + floor[j] / RTOL_FD
+      err = (top / den) if den > 0 else (0.0 if top == 0.0 else float('inf'))
       if not np.all(np.isfinite(resid)):
         err = float('inf')
       if not err <= RTOL_FD:
